@@ -75,6 +75,7 @@ type Store struct {
 	FailSelectName  string
 	SlowSelectName  string
 	SlowSelectDelay time.Duration
+	SlowSelectCtx   bool  // the slow select ends with the context's error when its querier's context is cancelled
 	YieldSeed       int64 // when non-zero, pseudo-random yields/sleeps in callbacks
 	InjectedAlso    error // injected failures also wrap this error (context.Canceled, context.DeadlineExceeded)
 
@@ -251,10 +252,20 @@ func matcherStrings(ms []*labels.Matcher) []string {
 
 func (q *querier) Select(sorted bool, hints *storage.SelectHints, ms ...*labels.Matcher) storage.SeriesSet {
 	k := q.s.hit("select", q.ctx)
+	var ctxErr error
 	for _, m := range ms {
 		if m.Name == labels.MetricName && m.Type == labels.MatchEqual {
 			if q.s.SlowSelectName != "" && m.Value == q.s.SlowSelectName {
-				time.Sleep(q.s.SlowSelectDelay)
+				if q.s.SlowSelectCtx && q.ctx != nil {
+					// a storage that gives up when the context it was opened with is cancelled
+					select {
+					case <-time.After(q.s.SlowSelectDelay):
+					case <-q.ctx.Done():
+						ctxErr = q.ctx.Err()
+					}
+				} else {
+					time.Sleep(q.s.SlowSelectDelay)
+				}
 			}
 			if q.s.FailSelectName != "" && m.Value == q.s.FailSelectName {
 				atomic.AddInt64(&q.s.fired, 1)
@@ -300,6 +311,9 @@ func (q *querier) Select(sorted bool, hints *storage.SelectHints, ms ...*labels.
 	ss := &seriesSet{q: q, idx: idx, pos: -1, lo: lo, hi: hi}
 	if k == "error" {
 		ss.err = fmt.Errorf("select: %w", q.s.injected())
+	}
+	if ctxErr != nil {
+		ss.err = ctxErr
 	}
 	return ss
 }
